@@ -10,7 +10,8 @@ pipeline.  What is proved here are the *mechanisms* it names, for all inputs:
 * T1 `C04_accepted_counts` — the conservative "+1" counting inequality of every accepted set;
 * T2 `C04_heldout_noninterference` — the model that scores a fold is a function of the rows
   outside that fold only, for a learner of any capacity;
-* T3 `C04_qvalues_after_competition` — q-values are computed on de-duplicated rows only.
+* T3 `C04_qvalues_after_competition` — q-values are computed on de-duplicated rows only;
+* T5 `C04_competition_label_blind` — which PSMs survive the competition does not depend on the labels.
 
 The expectation bound for the merged, calibrated folds is NOT a theorem here (DESIGN.md §5 C04).
 -/
@@ -139,6 +140,81 @@ theorem C04_qvalues_after_competition (merged : List Row) (hs : SortedRows merge
     levelQvalues (psmLevel true merged) = (psmLevel true merged).map (fun r =>
       qSpec (leInt true) ((psmLevel true merged).map (fun r => (r.score, r.target))) r.score) :=
   ⟨(dedupFirst_levelSpec Row.spec merged hs).2.1, C03_qvalues_are_C01 _⟩
+
+
+/-! ## T5 — the competition never looks at the labels
+
+The expectation bound T4 (`C04Fdr.lean`) needs a ranking and a competition that are independent
+of which of the exchangeable PSMs carry the decoy label.  In the model this is a theorem: every
+step that decides which PSM survives (per-chunk de-duplication, PSM level, every roll-up level)
+commutes with an arbitrary relabelling of the rows.  (The arrangement of tied rows is a parameter
+of the model; that the real sort picks it from the scores alone is what the label-flip run of the
+C04 harness checks on the real code.) -/
+
+/-- give every row the label `f id` -/
+def Row.relabel (f : Nat → Bool) (r : Row) : Row := { r with target := f r.id }
+
+theorem dedupFirst_map_relabel (key : Row → Nat) (f : Nat → Bool)
+    (hk : ∀ r, key (Row.relabel f r) = key r) :
+    ∀ (seen : List Nat) (rows : List Row),
+      dedupFirst key seen (rows.map (Row.relabel f)) = (dedupFirst key seen rows).map (Row.relabel f) := by
+  intro seen rows
+  induction rows generalizing seen with
+  | nil => simp [dedupFirst]
+  | cons r rest ih =>
+    simp only [List.map_cons, dedupFirst, hk]
+    split
+    · exact ih seen
+    · simp [ih]
+
+/-- **T5 — label-blind competition.**  Relabelling the rows in any way changes neither which rows
+survive the per-chunk de-duplication, nor the PSM level, nor any roll-up level — only the labels
+the survivors carry. -/
+theorem C04_competition_label_blind (f : Nat → Bool) (dedup : Bool) (rows : List Row) (l : Nat) :
+    chunkFile dedup (rows.map (Row.relabel f)) = (chunkFile dedup rows).map (Row.relabel f) ∧
+    psmLevel dedup (rows.map (Row.relabel f)) = (psmLevel dedup rows).map (Row.relabel f) ∧
+    rollupLevel dedup (rows.map (Row.relabel f)) l = (rollupLevel dedup rows l).map (Row.relabel f) := by
+  have hs : ∀ r, Row.spec (Row.relabel f r) = Row.spec r := fun _ => rfl
+  have hkey : ∀ r, (fun r : Row => r.key l) (Row.relabel f r) = (fun r : Row => r.key l) r := fun _ => rfl
+  have hpsm : psmLevel dedup (rows.map (Row.relabel f)) = (psmLevel dedup rows).map (Row.relabel f) := by
+    unfold psmLevel; split
+    · exact dedupFirst_map_relabel Row.spec f hs [] rows
+    · rfl
+  refine ⟨?_, hpsm, ?_⟩
+  · unfold chunkFile; split
+    · exact dedupFirst_map_relabel Row.spec f hs [] rows
+    · rfl
+  · unfold rollupLevel
+    rw [hpsm]
+    exact dedupFirst_map_relabel (fun r => r.key l) f hkey [] _
+
+/-- the surviving PSM ids are the same under every labelling -/
+theorem C04_survivors_independent_of_labels (f g : Nat → Bool) (dedup : Bool) (rows : List Row) (l : Nat) :
+    (psmLevel dedup (rows.map (Row.relabel f))).map Row.id = (psmLevel dedup (rows.map (Row.relabel g))).map Row.id ∧
+    (rollupLevel dedup (rows.map (Row.relabel f)) l).map Row.id
+      = (rollupLevel dedup (rows.map (Row.relabel g)) l).map Row.id := by
+  have hid : ∀ (h : Nat → Bool) (xs : List Row), (xs.map (Row.relabel h)).map Row.id = xs.map Row.id := by
+    intro h xs; simp [Row.relabel, Function.comp_def]
+  rw [(C04_competition_label_blind f dedup rows l).2.1, (C04_competition_label_blind g dedup rows l).2.1,
+    (C04_competition_label_blind f dedup rows l).2.2, (C04_competition_label_blind g dedup rows l).2.2]
+  simp [hid]
+
+/-- refuted variant: a sort that breaks score ties in favour of targets before the
+de-duplication is NOT label-blind — two tied PSMs of one spectrum, flip both labels, the other
+PSM survives -/
+def insTF (x : Row) : List Row → List Row
+  | [] => [x]
+  | y :: ys =>
+    if decide (y.score < x.score) || (decide (x.score = y.score) && (x.target || !y.target)) then x :: y :: ys
+    else y :: insTF x ys
+
+def targetsFirstOnTies (rows : List Row) : List Row := rows.foldr insTF []
+
+theorem C04_label_tiebreak_not_blind :
+    ∃ (rows : List Row) (f : Nat → Bool),
+      (dedupFirst Row.spec [] (targetsFirstOnTies (rows.map (Row.relabel f)))).map Row.id
+        ≠ (dedupFirst Row.spec [] (targetsFirstOnTies rows)).map Row.id :=
+  ⟨[⟨0, 7, [], true, 5⟩, ⟨1, 7, [], false, 5⟩], fun i => i == 1, by decide⟩
 
 /-! non-vacuity of T1: 4 accepted targets, 1 accepted decoy at a = 1/2: (1+1) ≤ 1/2 · 4 -/
 #guard (acceptedAt (leInt true) [(5, true), (4, true), (3, true), (2, false), (1, true)] (1/2)).length == 5
